@@ -63,6 +63,33 @@ pub fn distance_enum(a: &Geometry<f64>, b: &Geometry<f64>) -> f64 {
     Euclidean.distance(a, b)
 }
 
+// ---- the f32 instantiation of the same impls (lattice coordinates are exact in f32) ----
+pub fn to_f32(g: &Geometry<f64>) -> Geometry<f32> {
+    use geo::MapCoords;
+    g.map_coords(|c| geo::Coord { x: c.x as f32, y: c.y as f32 })
+}
+pub fn relate_f32(a: &Geometry<f32>, b: &Geometry<f32>) -> String {
+    use geo::Relate;
+    let m = with_geom!(a, x => with_geom!(b, y => x.relate(y)));
+    im_string(&m)
+}
+pub fn intersects_f32(a: &Geometry<f32>, b: &Geometry<f32>) -> bool {
+    use geo::Intersects;
+    with_geom!(a, x => with_geom!(b, y => x.intersects(y)))
+}
+pub fn contains_f32(a: &Geometry<f32>, b: &Geometry<f32>) -> bool {
+    use geo::Contains;
+    with_geom!(a, x => with_geom!(b, y => x.contains(y)))
+}
+pub fn within_f32(a: &Geometry<f32>, b: &Geometry<f32>) -> bool {
+    use geo::Within;
+    with_geom!(a, x => with_geom!(b, y => x.is_within(y)))
+}
+pub fn distance_f32(a: &Geometry<f32>, b: &Geometry<f32>) -> f32 {
+    use geo::{Distance, Euclidean};
+    with_geom!(a, x => with_geom!(b, y => Euclidean.distance(x, y)))
+}
+
 // ---- autoref-specialisation probes: call the impl when it exists, report None when it does not ----
 pub struct P<'a, A, B>(pub &'a A, pub &'a B);
 pub trait YesI {
